@@ -84,14 +84,19 @@ def check(ctx):
             ctx.violation("range:" + text, text, str(want)[:200], real_ans(k, v)[:200], "execute(%r)" % text)
         cases.append(("arr range %d %d" % (lo, hi), real_ans(k, v), text))
     steps = ["1", "2", "1/2", "1/3", "3/2", "7", "0.25", "0.1", "0", "0-1", "0-1/2", "5/2", "100"]
-    for _ in range(ctx.n(60, 600)):
+    big = [("0", "10^17-1", "10^16"), ("1", "10^18", "10^18"), ("7", "3*10^20+6", "10^20"), ("0", "2^60-1", "2^58"),
+           ("0-10^18", "10^18-1", "10^18"), ("0", "10^30", "10^29"), ("10^20", "10^20+5", "2"), ("0", "2^53+1", "2^52"),
+           ("1/3", "10^18", "10^17"), ("0", "10^17", "10^16+1")]
+    for i in range(ctx.n(60, 600) + len(big)):
         lo = rng.choice(["0", "1", "0-2", "1/2", "3", "0-5/2"])
         hi = rng.choice(["0", "1", "2", "5", "7/2", "0-1", "10", "3"])
         st = rng.choice(steps)
+        if i < len(big):
+            lo, hi, st = big[i]
         text = "range(%s, %s, %s)" % (lo, hi, st)
         k, v = R.value(text)
         ctx.count(text, bucket="range-step")
-        qlo, qhi, qst = [Fraction(eval(x.replace("/", "*Fraction(1,1)/") if "." not in x else x, {"Fraction": Fraction})) if "." not in x
+        qlo, qhi, qst = [Fraction(eval(x.replace("^", "**").replace("/", "*Fraction(1,1)/") if "." not in x else x, {"Fraction": Fraction})) if "." not in x
                          else Fraction(float(x)) for x in (lo, hi, st)]
         exact = "." not in st
         if qst <= 0 or qlo > qhi:
